@@ -530,6 +530,39 @@ fn removal_sweep(ctx: &Ctx, name: &str, space: Space, lv: Levels) {
     });
 }
 
+/// A user handler on the `<meta charset>` element itself fails: the new encoding has been
+/// announced by the built-in charset handler but not applied yet, so what the bail-out handlers
+/// append must still be in the encoding the sink knows (the initial one).
+fn meta_bail_sweep(ctx: &Ctx) {
+    let docs: [&[u8]; 3] = [b"<meta charset=windows-1252>x<a>y</a>", b"t<meta http-equiv=content-type content=\"text/html; charset=koi8-r\">x", b"<meta charset=\"shift_jis\"><a>"];
+    let base = Prepared::new(Cfg { adjust_charset: true, bail_out_handlers: 2, strict: false, bail_marker_suffix: "\u{e9}".into(), ..Cfg::with(vec![HSpec::obs(HKind::Element, "meta"), HSpec::obs(HKind::Element, "a")]) }).unwrap();
+    for input in docs {
+        let mut scheds = vec![Sched::whole()];
+        let mut more = vec![];
+        schedules(input.len(), Levels { l1: true, l2_max_len: 0, bytewise: true, empties: false }, &mut more);
+        scheds.extend(more);
+        for s in &scheds {
+            let chunks = s.chunks(input);
+            let clean = run(&base, &chunks, true);
+            ctx.exec(clean.results.len());
+            if !clean.all_ok() {
+                continue;
+            }
+            for (gh, gm) in [(true, false), (false, true), (false, false)] {
+                let f = base.variant(|c| { c.fail_at = Some(1); c.graceful_handler = gh; c.graceful_mem = gm; });
+                let rr = run(&f, &chunks, true);
+                ctx.exec(rr.results.len());
+                ctx.validated(1);
+                ctx.nontrivial.insert(digest(&(input, &s.cuts, gh, gm)));
+                if let Some(msg) = oracle(&f.cfg, input, &chunks, &rr, &clean.out) {
+                    report(ctx, &base.cfg, &f.cfg, input, s, msg);
+                }
+            }
+        }
+    }
+    ctx.level_done("3 documents with a charset declaration x L0,L1,LB x a failing user handler on the meta element x flags: bail-out markers in the encoding the sink knows");
+}
+
 fn ambiguity_sweep(ctx: &Ctx) {
     let inputs: &[&str] = &["<select><xmp>x", "<frameset><title>y</title>", "a<select><template><style>", "<select><textarea></select><title>"];
     for inp in inputs {
@@ -587,6 +620,7 @@ pub fn run_check(ctx: &Ctx) -> i32 {
         removal_sweep(ctx, "Fcore<=3 x 3 content-removing handler sets x a failure at every handler invocation x L1,LB: sink ++ unwritten input equals the single-write run's", Space::Frags { k: F_CORE, max: 3 }, l1);
         sweep(ctx, "Fcore<=3 x 3 content-removing handler sets (with text / element / end-tag observers inside the removed content) x L0,L1,LB x every handler index x flags: output before the markers = what the writes up to the start of the raw flush produce", Space::Frags { k: F_CORE, max: 3 }, &removing, l1, MemSweep::None);
         sweep(ctx, "F<=2 x 2 content-removing handler sets x L0,L1 x memory limits (every value to len+8, then every failure-moment step)", Space::Frags { k, max: 2 }, &removing[..2], l1only, MemSweep::Windows);
+        meta_bail_sweep(ctx);
         ambiguity_sweep(ctx);
     } else {
         sweep(ctx, "F<=3 x 6 handler sets x L0,L1,LB x every handler index x flags", Space::Frags { k, max: 3 }, &sets, l1, MemSweep::None);
@@ -598,6 +632,7 @@ pub fn run_check(ctx: &Ctx) -> i32 {
         removal_sweep(ctx, "F<=3 x 3 content-removing handler sets x a failure at every handler invocation x L1,L2,LB: sink ++ unwritten input equals the single-write run's", Space::Frags { k, max: 3 }, Levels { l1: true, l2_max_len: 24, bytewise: true, empties: false });
         sweep(ctx, "F<=3 x 3 content-removing handler sets x L0,L1,LB x every handler index x flags: output before the markers = what the writes up to the start of the raw flush produce", Space::Frags { k, max: 3 }, &removing, l1, MemSweep::None);
         sweep(ctx, "Fcore<=3 x 3 content-removing handler sets x L0,L1,LB x handler index + every memory limit", Space::Frags { k: F_CORE, max: 3 }, &removing, l1, MemSweep::Every);
+        meta_bail_sweep(ctx);
         ambiguity_sweep(ctx);
     }
     ctx.finish(
